@@ -51,7 +51,11 @@ type State struct {
 	// modset tracking for frame conditions: cells written since entry (key -> true)
 	written map[string]bool
 	// allocation sizes for alloccap obligations etc.
-	steps int
+	steps  int
+	pcSet  map[int]bool
+	noWF   bool
+	stamp  int
+	isPure bool // sub-state of a pure evaluation inside a contract expression (may mention bound variables)
 }
 
 func newState() *State {
@@ -60,6 +64,7 @@ func newState() *State {
 
 func (st *State) clone() *State {
 	n := *st
+	n.pcSet = nil
 	n.pc = append([]*Term(nil), st.pc...)
 	n.mem = make(map[string]*Term, len(st.mem))
 	for k, v := range st.mem {
@@ -116,7 +121,37 @@ func (st *State) assume(t *Term) {
 	if t.IsFalse() {
 		st.dead = true
 	}
+	if t.hasBound && !st.isPure {
+		panic(fmt.Errorf("internal: assumption with a free bound variable: %s", t))
+	}
+	if t.Op == OAnd {
+		for _, a := range t.Args {
+			st.assume(a)
+		}
+		return
+	}
+	if st.pcSet == nil {
+		st.pcSet = make(map[int]bool, len(st.pc)+8)
+		for _, p := range st.pc {
+			st.pcSet[p.id] = true
+		}
+	}
+	if st.pcSet[t.id] {
+		return
+	}
+	st.pcSet[t.id] = true
 	st.pc = append(st.pc, t)
+}
+
+// knows reports whether t is literally part of the path condition.
+func (st *State) knows(t *Term) bool {
+	if st.pcSet == nil {
+		st.pcSet = make(map[int]bool, len(st.pc)+8)
+		for _, p := range st.pc {
+			st.pcSet[p.id] = true
+		}
+	}
+	return st.pcSet[t.id]
 }
 
 func (st *State) top() *Frame { return st.stack[len(st.stack)-1] }
@@ -150,6 +185,23 @@ func (st *State) cellArr(key string, nidx int, elem *Sort) *Term {
 func (st *State) loadLeaf(key string, idx []*Term, s *Sort) *Term {
 	return Select(st.cellArr(key, len(idx), s), idxTerm(idx))
 }
+
+var stampSeq int
+
+// memStamp identifies the current memory contents (changes on every write); used to memoise pure evaluations.
+func (st *State) memStamp() uint64 {
+	var h uint64
+	for k, v := range st.mem {
+		var kh uint64 = 1469598103934665603
+		for i := 0; i < len(k); i++ {
+			kh ^= uint64(k[i])
+			kh *= 1099511628211
+		}
+		h += kh * (uint64(v.id)*2654435761 + 12345)
+	}
+	return h
+}
+
 func (st *State) storeLeaf(key string, idx []*Term, v *Term) {
 	a := st.cellArr(key, len(idx), v.S)
 	st.mem[key] = Store(a, idxTerm(idx), v)
@@ -184,10 +236,23 @@ func (pi *PtrInfo) index(i *Term, et types.Type) *PtrInfo {
 // loadAt reads a value of type T from location pi.
 func (st *State) loadAt(pi *PtrInfo, T types.Type) Val {
 	var L []*Term
+	sym, open := false, false
 	st.walk(pi, T, func(key string, idx []*Term, s *Sort) {
-		L = append(L, st.loadLeaf(key, idx, s))
+		t := st.loadLeaf(key, idx, s)
+		if t.Op == OSelect {
+			sym = true
+		}
+		if t.hasBound {
+			open = true
+		}
+		L = append(L, t)
 	})
-	return Val{T, L}
+	v := Val{T, L}
+	if sym && !open && !st.noWF {
+		// values read from the symbolic heap are well-formed Go values (slice 0 <= len <= cap, bounded sizes)
+		st.assumeSliceWF(v)
+	}
+	return v
 }
 func (st *State) storeAt(pi *PtrInfo, v Val) {
 	i := 0
